@@ -24,6 +24,9 @@ pub struct ScriptRng {
     /// entropy failure: at this draw `try_fill_bytes` returns an error and the infallible calls panic
     pub fail_at: Option<usize>,
     pub failed: bool,
+    /// lazily aligned injections: (length, n-th draw of that length, bytes)
+    lazy: Vec<(usize, usize, Vec<u8>)>,
+    seen_of_len: BTreeMap<usize, usize>,
 }
 
 impl ScriptRng {
@@ -36,6 +39,8 @@ impl ScriptRng {
             consumed: 0,
             fail_at: None,
             failed: false,
+            lazy: vec![],
+            seen_of_len: BTreeMap::new(),
         }
     }
     pub fn from_rng(r: &mut impl RngCore) -> Self {
@@ -45,6 +50,10 @@ impl ScriptRng {
     }
     pub fn inject(&mut self, draw_index: usize, bytes: Vec<u8>) {
         let _ = self.inject.insert(draw_index, bytes);
+    }
+    /// inject at the n-th (0-based) draw of exactly `len` bytes, whenever it happens
+    pub fn inject_nth_of_len(&mut self, len: usize, n: usize, bytes: Vec<u8>) {
+        self.lazy.push((len, n, bytes));
     }
     pub fn draws(&self) -> usize {
         self.log.len()
@@ -70,6 +79,17 @@ impl ScriptRng {
         // keep the base stream position independent of injections
         self.base.fill_bytes(dest);
         let mut injected = false;
+        {
+            let cnt = self.seen_of_len.entry(dest.len()).or_insert(0);
+            let nth = *cnt;
+            *cnt += 1;
+            if let Some(pos) = self.lazy.iter().position(|(l, n, _)| *l == dest.len() && *n == nth) {
+                let (_, _, b) = self.lazy.remove(pos);
+                dest.copy_from_slice(&b);
+                injected = true;
+                self.consumed += 1;
+            }
+        }
         if let Some(b) = self.inject.remove(&index) {
             if b.len() == dest.len() {
                 dest.copy_from_slice(&b);
